@@ -25,7 +25,6 @@ var boundsExceptions = []boundsException{
 	{"(*framer.framer).SendData", "buf[0:2]", "buf is make([]byte, len(data)+2): at least 2 bytes unless len(data)+2 overflows int, which no allocation can reach"},
 	{"(*framer.framer).GetMessage", "f.buffer[2:msgSize + 2]", "guarded by messageReady(): len(f.buffer) >= msgSize+2 is tested under the same bufLock section before slicing (checked structurally by C02-R2)"},
 	{"(*framer.framer).GetMessage", "f.buffer[msgSize + 2:]", "same guard as the previous slice: len(f.buffer) >= msgSize+2"},
-	{"controlsvc.parseConfigForReload", "m[i]", "i is the key of the enclosing range over m (idiom I2 through a local alias)"},
 }
 
 // readCountCallees are calls whose integer result n satisfies 0 <= n <= len(buf) for their buffer argument.
